@@ -91,6 +91,49 @@ def make_design(n, d, kind, seed, noise):
     return des
 
 
+SMOOTH_KINDS = ("regular", "irregular", "neardup", "clustered")
+
+
+def make_smooth_design(n, d, kind, seed, level):
+    """near-noise-free smooth data: y is a smooth function of the position, perturbed by a bounded wiggle of the size `level`
+    of the stated errors (level 1e-2 .. 1e-6 of the data range).  At the best hyper-parameters K + S is then ill-conditioned
+    (cond ~ level^-2), the score is numerically noisy there and L-BFGS-B legitimately ends some runs with an abnormal
+    line-search termination.  "neardup": pairs of inputs 1e-3 of the range apart, "clustered": pairs 0.013 apart."""
+    sc, sh = AFFINE[seed % len(AFFINE)]
+    off = 1 + (seed % 5)
+    if kind not in SMOOTH_KINDS:
+        raise HarnessError(kind)
+    gap = {"neardup": 1e-3, "clustered": 0.013}.get(kind)
+    if d == 1:
+        if kind == "regular":
+            u = [[i / (n - 1)] for i in range(n)]
+        elif kind == "irregular":
+            u = [[v] for v in sorted(frac((i + off) * PHI) for i in range(n))]
+        else:
+            u = []
+            for b in sorted(frac((i + off) * PHI) for i in range((n + 1) // 2)):
+                u.append([b])
+                if len(u) < n:
+                    u.append([b + gap])
+    else:
+        if kind == "regular":
+            k = 3 if n <= 9 else 4
+            u = [[(i % k) / (k - 1) + 0.07 * (i // k), (i // k) / max(1, (n - 1) // k)] for i in range(n)]
+        elif kind == "irregular":
+            u = sorted([halton(i + off, 2), halton(i + off, 3)] for i in range(n))
+        else:
+            u = []
+            for i in range((n + 1) // 2):
+                b = [halton(i + off, 2), halton(i + off, 3)]
+                u.append(b)
+                if len(u) < n:
+                    u.append([b[0] + gap, b[1] - gap])
+    X = [[sh + sc * (0.5**k) * p[k] for k in range(d)] for p in u]
+    y = [0.8 + math.sin(6.0 * p[0]) + p[-1] + level * math.cos(7.0 * (i + off)) for i, p in enumerate(u)]
+    e = [level * (1.0 + 0.5 * frac((i + 2 + off) * PHI * PHI)) for i in range(n)]
+    return {"X": X, "y": y, "n": n, "d": d, "kind": kind, "noise": "y_err", "y_err": e, "label": "smooth,x=%s,yerr=%g" % (kind, level)}
+
+
 def design_scales(des):
     X = np.array(des["X"], dtype=float)
     y = np.array(des["y"], dtype=float)
@@ -464,9 +507,14 @@ def build_for_selection(case, **kw):
         if case["kernel"] != "SE" or case["mean"] != "C":
             raise HarnessError("user bounds are only scripted for SE + constant mean")
         s = design_scales(des)
-        kb = [(math.log(s["sy"]) - 1.0, math.log(s["sy"]) + 1.5)] + [(math.log(0.05 * r), math.log(2.0 * r)) for r in s["rng"]]
+        if case["user_bounds"] == "wide":  # several e-foldings either side of every natural scale
+            kb = [(math.log(s["sy"]) - 3.0, math.log(s["sy"]) + 3.0)] + [(math.log(0.01 * r), math.log(10.0 * r)) for r in s["rng"]]
+            mb = [(s["ybar"] - 5 * s["sy"], s["ybar"] + 5 * s["sy"])]
+        else:
+            kb = [(math.log(s["sy"]) - 1.0, math.log(s["sy"]) + 1.5)] + [(math.log(0.05 * r), math.log(2.0 * r)) for r in s["rng"]]
+            mb = [(s["ybar"] - s["sy"], s["ybar"] + 2 * s["sy"])]
         kern = SquaredExponential(hyperpar_bounds=kb)
-        mean = ConstantMean(hyperpar_bounds=[(s["ybar"] - s["sy"], s["ybar"] + 2 * s["sy"])])
+        mean = ConstantMean(hyperpar_bounds=mb)
     return GpRegressor(X, y, kernel=kern, mean=mean, cross_val=bool(case["cross_val"]), **noise_kwargs(des), **kw)
 
 
@@ -499,6 +547,23 @@ def score_margin_tolerance(case, gp, theta, centre):
     return tot, refs
 
 
+class Spy:
+    """pass-through observer of the optimiser the model calls: records (termination flag, final cost) of every run.
+    Observation only - it is used for the tags / the sample, never by the oracle."""
+
+    def __init__(self, fn):
+        self.fn = fn
+        self.runs = []
+
+    def __call__(self, *a, **k):
+        r = self.fn(*a, **k)
+        try:
+            self.runs.append((int(r[2]["warnflag"]), float(r[1])))
+        except Exception:
+            self.runs.append((None, None))
+        return r
+
+
 def ev_select(case):
     import inference.gp.regression as R
     from mc.ref import gpref_b as G
@@ -512,7 +577,11 @@ def ev_select(case):
     prefix = case.get("prefix", [])
     crit = "loo" if case["cross_val"] else "lml"
     cfg = "k=%s,m=%s,d=%d,n=%d,noise=%s,crit=%s,starts=%s" % (kname(case["kernel"]), case["mean"], d, des["n"], des["noise"], crit, "default" if case["n_starts"] is None else case["n_starts"])
-    cfg += ",bounds=%s" % ("user" if case.get("user_bounds") else "estimated")
+    cfg += ",bounds=%s" % (("user-wide" if case["user_bounds"] == "wide" else "user") if case.get("user_bounds") else "estimated")
+    regime = ""
+    if des.get("label"):
+        cfg += "," + des["label"]
+        regime = ",near-noise-free"
     if case.get("tuples") is not None:
         tuples = [tuple(t) for t in case["tuples"]]
     else:
@@ -522,14 +591,28 @@ def ev_select(case):
     worst = None
     distinct = set()
     orig = R.random
+    orig_opt = getattr(R, "fmin_l_bfgs_b", None)
+    n_abnormal = n_abnormal_best = 0
     try:
         for tup in tuples:
             script = Script([v for i in tup for v in placements[i]])
             R.random = script
-            with lib("GpRegressor-bfgs"):
-                gp = build_for_selection(case, optimizer="bfgs", n_starts=case["n_starts"])
-            R.random = orig
+            spy = Spy(orig_opt) if orig_opt is not None else None
+            if spy is not None:
+                R.fmin_l_bfgs_b = spy
+            try:
+                with lib("GpRegressor-bfgs"):
+                    gp = build_for_selection(case, optimizer="bfgs", n_starts=case["n_starts"])
+            finally:
+                R.random = orig
+                if spy is not None:
+                    R.fmin_l_bfgs_b = orig_opt
             nev += 1
+            if spy is not None and spy.runs and all(f is not None for f, _ in spy.runs):
+                if any(f != 0 for f, _ in spy.runs):
+                    n_abnormal += 1
+                    if any(f == 0 for f, _ in spy.runs) and min(spy.runs, key=lambda r: r[1])[0] != 0:
+                        n_abnormal_best += 1
             if script.pos < len(script.values) or script.pos == 0:
                 raise HarnessError("seam: the model drew %d uniform numbers, the script holds %d - the random starts are not drawn from the scripted module global" % (script.pos, len(script.values)))
             if script.overrun:
@@ -539,7 +622,7 @@ def ev_select(case):
             hi = np.array([b[1] for b in gp.hp_bounds], dtype=float)
             ctx = {"config": cfg, "starts": [list(placements[i]) for i in tup], "theta": theta.tolist(), "bounds": [lo.tolist(), hi.tolist()]}
             if theta.shape != lo.shape or not np.all(np.isfinite(theta)) or np.any(theta < lo) or np.any(theta > hi):
-                fails.append(fail("select/bfgs-%s/outside-bounds" % crit, "selected %s not within %s..%s" % (theta.tolist(), lo.tolist(), hi.tolist()), **ctx))
+                fails.append(fail("select/bfgs-%s%s/outside-bounds" % (crit, regime), "selected %s not within %s..%s" % (theta.tolist(), lo.tolist(), hi.tolist()), **ctx))
                 continue
             centre = 0.5 * (lo + hi)
             with lib("model_selector"):
@@ -552,25 +635,36 @@ def ev_select(case):
                 r = (-margin / tol) if tol > 0 else float("inf")
                 slack["select_margin"] = max(slack.get("select_margin", 0.0), r if np.isfinite(r) else 0.0)
                 if not np.isfinite(s_res) or -margin > tol:
-                    fails.append(fail("select/bfgs-%s/worse-than-centre" % crit, "score(selected)=%r < score(centre of bounds)=%r (tol %.3g)" % (s_res, s_cen, tol), observed=s_res, expected_at_least=s_cen, **ctx))
+                    fails.append(fail("select/bfgs-%s%s/worse-than-centre" % (crit, regime), "score(selected)=%r < score(centre of bounds)=%r (tol %.3g)" % (s_res, s_cen, tol), observed=s_res, expected_at_least=s_cen, **ctx))
             if worst is None or margin < worst[0]:
                 worst = (margin, theta, centre, ctx)
     finally:
         R.random = orig
+        if orig_opt is not None:
+            R.fmin_l_bfgs_b = orig_opt
     # the smallest margin of the block is re-scored with the 50-digit reference
     if worst is not None and not fails:
         margin, theta, centre, ctx = worst
         tol, refs = score_margin_tolerance(case, gp, theta, centre)
         if refs is not None and refs[0] < refs[1] - tol:
-            fails.append(fail("select/bfgs-%s/worse-than-centre-by-reference" % crit, "reference score(selected)=%r < reference score(centre)=%r" % (refs[0], refs[1]), **ctx))
+            fails.append(fail("select/bfgs-%s%s/worse-than-centre-by-reference" % (crit, regime), "reference score(selected)=%r < reference score(centre)=%r" % (refs[0], refs[1]), **ctx))
     tags.add(cfg)
     tags.add(cfg + ",distinct-optima=%d" % min(len(distinct), 3))
+    if n_abnormal:
+        tags.add(cfg + ",some-run-terminated-abnormally")
+    if n_abnormal_best:
+        tags.add(cfg + ",best-run-terminated-abnormally-while-another-terminated-normally")
     seen, out = set(), []
     for f in fails:
         if f["key"] not in seen:
             seen.add(f["key"])
             out.append(f)
-    return {"fails": out, "n": nev, "tags": tags, "slack": slack, "sample": {"config": cfg, "tuples": len(tuples), "min_margin": None if worst is None else worst[0], "distinct_results": len(distinct)}}
+    return {"fails": out, "n": nev, "tags": tags, "slack": slack, "sample": {"config": cfg, "tuples": len(tuples), "min_margin": None if worst is None else worst[0], "distinct_results": len(distinct), "tuples_with_abnormal_termination": n_abnormal, "of_which_best_run_abnormal": n_abnormal_best}}
+
+
+def ev_select_nnf(case):
+    """the same evaluator on the near-noise-free designs (kept apart in the per-evaluator statistics and in the keys of escaping exceptions)"""
+    return ev_select(case)
 
 
 def ev_diffev(case):
@@ -593,7 +687,7 @@ def ev_diffev(case):
     return {"fails": fails, "n": 1, "tags": {"diffev," + cfg}, "sample": {"config": cfg, "theta": theta.tolist()}}
 
 
-EVALUATORS = {"scores": ev_scores, "select": ev_select, "diffev": ev_diffev}
+EVALUATORS = {"scores": ev_scores, "select": ev_select, "select_nnf": ev_select_nnf, "diffev": ev_diffev}
 
 
 # --------------------------------------------------------------------------- run
